@@ -14,6 +14,7 @@ import (
 func init() {
 	vpRegister("c18_validate", vpH_c18_validate)
 	vpRegister("c18_loadkey", vpH_c18_loadkey)
+	vpRegister("c18_brokenfile", vpH_c18_brokenfile)
 	vpRegister("c18_reload", vpH_c18_reload)
 }
 
@@ -170,5 +171,61 @@ func vpH_c18_reload() {
 		} else {
 			vpAssert(err != nil && got == nil, "a key with a missing or unapproved algorithm is rejected, whatever was loaded before")
 		}
+	}
+}
+
+// A key-set file may hold an entry the JOSE library cannot parse at all (a
+// required member is missing). Such an entry is still an entry of the file:
+// with it the file is not a singleton, and asking for its id is asking for an
+// invalid key. Loading may refuse the whole file; when it does succeed, it
+// returns exactly the key the rule names.
+func vpH_c18_brokenfile() {
+	n := vpInt(0, vpParam("keys"))
+	var kids []string
+	var keys []jwk.Key
+	for i := 0; i < n; i++ {
+		kid := vpStrUpTo(1, "a-b")
+		keys = append(keys, vpAbstractKey(true, true, 0, "EdDSA", "OKP", kid))
+		kids = append(kids, kid)
+	}
+	at := vpInt(0, n)
+	bkid := vpStrUpTo(1, "a-b")
+	want := vpStrUpTo(1, "a-b")
+	path := vpKeySetFileBroken(vpAbstractSet(keys...), at, bkid)
+	got, err := LoadKey(path, want)
+	vpCleanup()
+
+	// the entries of the file in order; -1 marks the unparseable one
+	var fileKids []string
+	var fileIdx []int
+	for i := 0; i <= n; i++ {
+		if i == at {
+			fileKids = append(fileKids, bkid)
+			fileIdx = append(fileIdx, -1)
+		}
+		if i < n {
+			fileKids = append(fileKids, kids[i])
+			fileIdx = append(fileIdx, i)
+		}
+	}
+	pick := -2 // nothing picked
+	if want == "" {
+		if len(fileKids) == 1 {
+			pick = fileIdx[0]
+		}
+	} else {
+		for j, k := range fileKids {
+			if k == want {
+				pick = fileIdx[j]
+				break
+			}
+		}
+	}
+	if pick < 0 {
+		vpAssert(err != nil && got == nil, "a file with an unparseable entry: ambiguous, absent and invalid keys make loading fail")
+		return
+	}
+	if err == nil {
+		vpAssert(got != nil && got.KeyID() == kids[pick], "when loading succeeds, the key is the first entry of the file with the requested id")
 	}
 }
